@@ -230,7 +230,7 @@ type inst struct {
 	log     []micro
 	mode    string
 	flaked  map[int]bool
-	rheld   *held     // request handler invocation held
+	rheld   []*held   // request handler invocations held (the code under test runs one at a time; a changed one may not)
 	rsleep  time.Time // a failing request handler sleeps until
 	rfl     int       // request handler invocations under way
 	rflMac  int
@@ -305,7 +305,7 @@ func (in *inst) handle(ctx context.Context, req *resilience.QueuedRequest) error
 		in.rsleep = time.Now().Add(sleep)
 	case "hold":
 		h = &held{ch: make(chan bool), m: m}
-		in.rheld = h
+		in.rheld = append(in.rheld, h)
 	}
 	in.mu.Unlock()
 	if mode == "fail" {
@@ -550,8 +550,11 @@ func (in *inst) Apply(e core.Event) map[string]any {
 		in.mu.Unlock()
 	case "rel":
 		in.mu.Lock()
-		h := in.rheld
-		in.rheld = nil
+		var h *held
+		if len(in.rheld) > 0 {
+			h = in.rheld[0]
+			in.rheld = in.rheld[1:]
+		}
 		in.mu.Unlock()
 		if h == nil {
 			acc = false
@@ -696,7 +699,7 @@ func (in *inst) Fingerprint() string {
 	sort.Ints(ks)
 	fmt.Fprintf(&sb, "|mode=%s|flaked=%v|rfl=%d", in.mode, fl, in.rfl)
 	if in.rfl > 0 {
-		fmt.Fprintf(&sb, "|inhand=%d:%s|held=%t|sleep=%s", in.rflMac, rel(in.rflExp, now), in.rheld != nil, rel(in.rsleep, now))
+		fmt.Fprintf(&sb, "|inhand=%d:%s|held=%d|sleep=%s", in.rflMac, rel(in.rflExp, now), len(in.rheld), rel(in.rsleep, now))
 	}
 	fmt.Fprintf(&sb, "|hhold=%t|hheld=%d|scen=%v", in.hhold, len(in.hheld), ks)
 	// the scripted health flags are set anew by every tick before they are read: not part of the state
@@ -708,12 +711,12 @@ func (in *inst) Probe() map[string]any { return nil }
 func (in *inst) Close() {
 	in.mu.Lock()
 	in.closing = true
-	h := in.rheld
+	hs := in.rheld
 	in.rheld = nil
 	hh := in.hheld
 	in.hheld = nil
 	in.mu.Unlock()
-	if h != nil {
+	for _, h := range hs {
 		h.ch <- true
 	}
 	for _, ch := range hh {
